@@ -69,6 +69,18 @@ Encrypt(key, m, pt) ==
         /\ UNCHANGED chal
         /\ ev' = [op |-> "Encrypt", key |-> key, m |-> m, pt |-> pt, out |-> "ok", sv |-> sv]
 
+\* the same bytes encrypted twice while ONE key session is open (nested: the second call inside
+\* an inner `with` of the same key file): two independent encryptions, each with its own IV
+PairPlaintexts == {PT(0, 0), PT(16, 200), PT(33, 129)}
+EncryptPair(key, m, pt, nested) ==
+    LET aes == Concrete(m) = "aes"
+        sv1 == EncryptV(key, m, pt, nonce + 1)
+        sv2 == EncryptV(key, m, pt, nonce + 2)
+    IN  /\ store' = store \o <<[sv |-> sv1, key |-> key, pt |-> pt], [sv |-> sv2, key |-> key, pt |-> pt]>>
+        /\ nonce' = IF aes THEN nonce + 2 ELSE nonce
+        /\ UNCHANGED chal
+        /\ ev' = [op |-> "EncryptPair", key |-> key, m |-> m, pt |-> pt, nested |-> nested, out |-> "ok", sv |-> sv1, sv2 |-> sv2]
+
 Decrypt(key, i) ==
     LET r == DecryptV(key, store[i].sv) IN
     /\ UNCHANGED <<store, nonce, chal>>
@@ -103,14 +115,16 @@ DecryptBad(key, sv) ==
     /\ ev' = [op |-> "DecryptBad", key |-> key, sv |-> sv, out |-> IF r.ok THEN "ok" ELSE "error"]
 
 \* SecureField.to_python on stored values of the wrong shape or encoding.  shape names are
-\* interpreted by the harness (harness/props/c08.py STORED); the result is always an error
-\* except for the two pass-through shapes
-StoredShapes == {"none", "plain-str", "dict-no-method", "dict-empty-method", "dict-unknown-method",
+\* interpreted by the harness (harness/props/crypto.py stored_value); the result is always an
+\* error except for the two pass-through shapes.  fm is the method the field is configured
+\* with; wherever a shape carries a well-formed ciphertext it is a genuine ciphertext of the
+\* field's own method and key, so that only the malformation named by the shape is wrong.
+StoredShapes == {"none", "plain-str", "dict-no-method", "dict-null-method", "dict-empty-method", "dict-unknown-method",
                  "dict-int-method", "dict-no-ciphertext", "dict-int-ciphertext", "dict-bad-padding-b64",
                  "dict-foreign-chars-b64", "dict-aes-short", "dict-aes-unaligned", "dict-aes-wrong-key", "list", "int"}
-LoadStored(shape) ==
+LoadStored(shape, fm) ==
     /\ UNCHANGED <<store, nonce, chal>>
-    /\ ev' = [op |-> "LoadStored", shape |-> shape,
+    /\ ev' = [op |-> "LoadStored", shape |-> shape, fm |-> fm,
               out |-> IF shape \in {"none", "plain-str"} THEN "ok" ELSE "error"]
 
 ---------------------------------------------------------------------------
@@ -149,7 +163,8 @@ Next ==
     \/ \E k \in Keys, i \in DOMAIN store : Tick /\ Decrypt(k, i)
     \/ \E k \in Keys, sv \in BadCts : Tick /\ DecryptBad(k, sv)
     \/ \E i \in DOMAIN store : Tick /\ DecryptTruncated(i)
-    \/ \E s \in StoredShapes : Tick /\ LoadStored(s)
+    \/ \E s \in StoredShapes, fm \in Methods : Tick /\ LoadStored(s, fm)
+    \/ \E k \in Keys, m \in Methods, p \in PairPlaintexts, nested \in BOOLEAN : Tick /\ EncryptPair(k, m, p, nested)
     \/ \E a \in Algs, p \in SecretNames : Tick /\ Assign(a, p)
     \/ \E a \in Algs, p \in SecretNames : Tick /\ LoadPlain(a, p)
     \/ \E q \in SecretNames : Tick /\ Challenge(q)
